@@ -2528,6 +2528,7 @@ class TextQueryBackend(Backend):
         ):
             return self.correlation_search_single_rule_expression.format(
                 rule=rule_reference,
+                ruleid=rule_reference.rule.name or rule_reference.rule.id,
                 query=queries[0],
                 normalization=self.convert_correlation_search_field_normalization_expression(
                     rule.aliases, rule_reference
